@@ -5081,6 +5081,9 @@ class DfaCompileCtx:
             # Check if the target has a matching fallthrough
             if isinstance(transition.target, DFProxyState) and not transition.target.can_eliminate() or isinstance(orig_state, DFProxyState) and not orig_state.can_eliminate(): continue
 
+            # Never bypass an accepting state: being in it is observable (DONE from feed/end)
+            if transition.target in self.dfa.accepting_states: continue
+
             effective = set(transition.on_values)
             if DFTransition.Else in transition.on_values:
                 effective.update(transition.target.compute_foreign_else_definition(orig_state))
@@ -5114,6 +5117,9 @@ class DfaCompileCtx:
         all_transitions = list(self.dfa.all_transitions(include_states=True))
         for orig_state, transition in all_transitions:
             if isinstance(transition.target, DFProxyState) and not transition.target.can_eliminate() or isinstance(orig_state, DFProxyState) and not orig_state.can_eliminate(): continue
+
+            # Never bypass an accepting state: being in it is observable (DONE from feed/end)
+            if transition.target in self.dfa.accepting_states: continue
 
             if len(transition.target.transitions) != 1 or DFTransition.Else not in transition.target.transitions[0].on_values:
                 continue
